@@ -19,6 +19,15 @@ object with renewed masks and judged:
   the factors 1e-3 and 1e3; it can only turn from reject to keep when a limit
   is widened; the decision for a component tuple is the AND of the
   single-component decisions.
+
+Family ``sta_lta_same_n`` (one root = n, an ORDER of time steps, sta/lta seconds,
+mode): inside one root - one process - windows of n samples at dt1 are screened
+and then windows of the same n samples at dt2 != dt1 (successive calls, over
+the whole grid of components x limits; or one mixed list holding windows of
+every time step), each call judged by ``ref.stalta`` with the window's own time
+step; bursts and steps are placed so that the chunk layout of the other time
+step gives another verdict (a decision must not depend on what was screened
+before with the same sample count).
 """
 import itertools
 import math
@@ -417,6 +426,216 @@ def stalta_case(ctx, root, ws, case):
 
 
 # ---------------------------------------------------------------------------
+# STA/LTA, equal sample count at different time steps inside one process
+#
+# Inside one root windows of n samples at dt1 are screened and then windows of
+# the SAME n samples at dt2 != dt1 (... dt3) with the same sta_seconds /
+# lta_seconds (mode 'successive': one call per time step, again and again over
+# the whole grid of components x limits; mode 'mixed': one list holding the
+# windows of all time steps).  Every call is judged by ref.stalta with the
+# time step of the window itself.  The envelopes are chosen so that the chunk
+# layout of the other time step gives another verdict (counted:
+# ``alt_other_time_step_layout_differs``).
+
+SAME_N_SETS = {
+    "quick": [
+        dict(n=401, burst=40, dts=[0.01, 0.02], sta_lta=[(1, 4), (0.5, 2), (1, 2)]),
+        dict(n=3840, burst=64, dts=[1 / 128, 1 / 64], sta_lta=[(1, 30)]),
+    ],
+    "thorough": [
+        dict(n=401, burst=40, dts=[0.01, 0.02], sta_lta=[(1, 4), (0.5, 2), (1, 2), (0.5, 4), (0.1, 1), (2, 4)]),
+        dict(n=3840, burst=64, dts=[1 / 128, 1 / 64], sta_lta=[(1, 30), (2, 30), (1, 15), (0.5, 10)]),
+        dict(n=801, burst=40, dts=[0.005, 0.01, 0.02], sta_lta=[(1, 4), (0.5, 2), (0.1, 1)]),
+        dict(n=1200, burst=50, dts=[0.01, 0.025], sta_lta=[(1, 12), (2, 10)]),
+    ],
+}
+SAME_N_MODES = ["successive", "mixed"]
+# window name -> envelope on (ns, ew, vt)
+SAME_N_WINDOWS = {
+    "S": ("flat", "flat", "flat"),
+    "Be": ("burst_e6", "flat", "flat"),         # short burst x6 early on ns
+    "U": ("flat", "step_up", "flat"),           # amplitude 1 -> 4 at mid-window on ew
+    "Bl": ("flat", "flat", "burst_l3"),         # short burst x3 late on vt
+    "Dn": ("step_dn", "flat", "flat"),          # amplitude 4 -> 1 at mid-window on ns
+    "Bm": ("flat", "burst_m3", "flat"),         # short burst x3 before mid-window on ew
+    "Ue": ("flat", "flat", "step_e"),           # amplitude 1 -> 3 after the first tenth of the window on vt
+}
+SAME_N_LIST = list(SAME_N_WINDOWS)
+SAME_N_COMPS = [("ns", "ew", "vt"), ("ns",), ("ew",), ("vt",)]
+SAME_N_LIMITS = [(lo, hi) for lo in (0.2, 0.1, 0.3, 0.5) for hi in (2.5, 1.25, 1.5, 2.0, 3.0, 4.0, 6.0, 8.0)]
+
+
+def envelope_n(name, n, burst):
+    if name == "flat":
+        return [1.0] * n
+    if name.startswith("burst_"):
+        at = {"e": 0.28, "m": 0.40, "l": 0.70}[name[6]]
+        amp = float(name[7:])
+        lo = int(at * n)
+        return [amp if lo <= i < lo + burst else 1.0 for i in range(n)]
+    if name == "step_up":
+        return [1.0 if i < n // 2 else 4.0 for i in range(n)]
+    if name == "step_dn":
+        return [4.0 if i < n // 2 else 1.0 for i in range(n)]
+    if name == "step_e":
+        return [1.0 if i < n // 10 else 3.0 for i in range(n)]
+    raise KeyError(name)
+
+
+_ARR_N = {}
+
+
+def same_n_arrays(name, n, burst):
+    """dict component -> ndarray; the samples do not depend on the time step."""
+    key = (name, n, burst)
+    if key not in _ARR_N:
+        _ARR_N[key] = {c: np.array([e * v for e, v in zip(envelope_n(en, n, burst), carrier(c, n))])
+                       for c, en in zip(ALL, SAME_N_WINDOWS[name])}
+    return _ARR_N[key]
+
+
+_VAR_N = {}
+
+
+def same_n_variants(w, comp, n, burst, dt, sta, lta):
+    key = (w, comp, n, burst, dt, sta, lta)
+    if key not in _VAR_N:
+        vs = RS.ratio_variants(same_n_arrays(w, n, burst)[comp].tolist(), dt, sta, lta)
+        _VAR_N[key] = [dict(chunk=v["chunk"], lta_len=v["lta_len"], lta_from=v["lta_from"],
+                            ratios=[min(v["ratios"]), max(v["ratios"])]) for v in vs]
+    return _VAR_N[key]
+
+
+def same_n_verdict(w, comps, n, burst, dt, sta, lta, lo, hi):
+    classes = [RS.classify(same_n_variants(w, c, n, burst, dt, sta, lta), lo, hi) for c in comps]
+    return RS.window_verdict(classes), classes
+
+
+def same_n_root(ctx, root):
+    n, burst, dts, sta, lta, mode = root["n"], root["burst"], root["dts"], root["sta"], root["lta"], root["mode"]
+    if mode == "successive":
+        calls = [[(w, dt) for w in SAME_N_LIST] for dt in dts]
+    else:
+        calls = [[(w, dt) for w in SAME_N_LIST for dt in dts], [(w, dt) for dt in dts for w in SAME_N_LIST]]
+    discriminating = 0
+    log, pending = [], []       # every judged call; the calls with a decision that contradicts the reference
+    for comps in SAME_N_COMPS:
+        patterns = set()
+        for lo, hi in SAME_N_LIMITS:
+            for items in calls:
+                detail = dict(fn="sta_lta_window_rejection", family="same sample count, different time steps",
+                              mode=mode, n_samples=n, time_steps_in_this_root_in_order=dts,
+                              windows=[[w, dt] for w, dt in items], components=comps, sta_seconds=sta,
+                              lta_seconds=lta, min_ratio=lo, max_ratio=hi, hvsr="none",
+                              signals=f"hvmc.checks.c13.same_n_arrays(name, {n}, {burst})[component], TimeSeries(., dt)",
+                              how="hvmc.checks.c13.same_n_root replays the whole root: the calls of all components "
+                                  "x limits x time steps are made in one process, in this order")
+                recs = []
+                for w, dt in items:
+                    a = same_n_arrays(w, n, burst)
+                    recs.append(SeismicRecording3C(TimeSeries(a["ns"], dt), TimeSeries(a["ew"], dt),
+                                                   TimeSeries(a["vt"], dt)))
+                ctx.count("states")
+                ctx.count("same_n_calls")
+                try:
+                    out = sta_lta_window_rejection(recs, sta_seconds=sta, lta_seconds=lta, min_sta_lta_ratio=lo,
+                                                   max_sta_lta_ratio=hi, components=comps, hvsr=None)
+                except Exception as e:      # noqa: BLE001
+                    ctx.count("transitions")
+                    ctx.violation("C13:sta_lta:call:raises", root, detail=detail,
+                                  observed=f"{type(e).__name__}: {e}",
+                                  explanation="sta_lta_window_rejection raised inside its domain")
+                    continue
+                ctx.count("transitions")
+                kept = selection(recs, out)
+                if kept is None:
+                    ctx.violation("C13:sta_lta:returned-list:identity-order", root, detail=detail,
+                                  observed=repr(out)[:300],
+                                  explanation="the returned value is not a sub-list of the given windows "
+                                              "(same objects, original order)")
+                    continue
+                patterns.add(tuple(kept))
+                ctx.outcome(f"n|{n}|{sta}|{lta}|{'.'.join(f'{w}@{dt}' for w, dt in items)}|{bits(kept)}")
+                exps = []
+                for w, dt in items:
+                    exp, classes = same_n_verdict(w, comps, n, burst, dt, sta, lta, lo, hi)
+                    exps.append((exp, classes))
+                    if exp is None:
+                        ctx.count("unclear_window_decisions")
+                        continue
+                    ctx.count("clear_kept" if exp else "clear_rejected")
+                    ctx.count("same_n_clear_kept" if exp else "same_n_clear_rejected")
+                    # vacuity statistic: the chunk layout of another time step of this root decides otherwise
+                    for other in dts:
+                        if other != dt:
+                            alt = same_n_verdict(w, comps, n, burst, other, sta, lta, lo, hi)[0]
+                            if alt is not None and alt != exp:
+                                ctx.count("alt_other_time_step_layout_differs")
+                                discriminating += 1
+                                break
+                if any(e is not None for e, _ in exps):
+                    ctx.count("validated")
+                log.append((items, kept, comps, lo, hi))
+                bad = [i for i, (e, _) in enumerate(exps) if e is not None and e != kept[i]]
+                if bad:
+                    pending.append(dict(i=bad[0], items=items, kept=kept, exps=exps, comps=comps, lo=lo, hi=hi,
+                                        detail=detail))
+        if len(patterns) > 1:
+            ctx.nontrivial_case(f"n|{n}|{dts}|{sta}|{lta}|{mode}|{comps}")
+    if not discriminating:
+        ctx.count("same_n_roots_without_discriminating_decision")
+    # ---- report.  Diagnosis for the key: is there ONE time step of this root whose sample counts, used for
+    # every window of every call of the root, explain every clear decision that was observed?  Then the
+    # windows were chunked with a layout remembered from that time step; otherwise the defect is of
+    # another kind and gets the keys of the main family.
+    stale = None
+    if pending:
+        for other in dts:
+            def under(w, comps, lo, hi, other=other):
+                return same_n_verdict(w, comps, n, burst, other, sta, lta, lo, hi)[0]
+            if any(under(p["items"][p["i"]][0], p["comps"], p["lo"], p["hi"]) == p["kept"][p["i"]]
+                   for p in pending) and \
+                    all(under(w, comps, lo, hi) in (None, k)
+                        for items, kept, comps, lo, hi in log for (w, _), k in zip(items, kept)):
+                stale = other
+                break
+    for p in pending:
+        i, items, kept, exps, comps = p["i"], p["items"], p["kept"], p["exps"], p["comps"]
+        w, dt = items[i]
+        exp, classes = exps[i]
+        which = "clear-inside:rejected" if exp else "clear-outside:kept"
+        key = f"C13:sta_lta:{which}" if stale is None else f"C13:sta_lta:same-sample-count-other-time-step:{which}"
+        text = ("a window whose STA/LTA ratios are clearly inside the limits on every examined component "
+                "was rejected" if exp else
+                "a window with an STA/LTA ratio clearly outside the limits on an examined component was kept")
+        if stale is not None:
+            text += (f"; every clear decision of every call of this root is the one obtained with the sample "
+                     f"counts of time step {stale} (screened in the same process with the same sta/lta seconds "
+                     f"and the same number of samples per window), not with the window's own time step")
+        ctx.violation(key, root,
+                      detail=dict(p["detail"], window_index=i, window=w, time_step=dt,
+                                  readings={c: same_n_variants(w, c, n, burst, dt, sta, lta) for c in comps},
+                                  classes=dict(zip(comps, classes)),
+                                  all_decisions_of_the_root_explained_by_layout_of_time_step=stale),
+                      expected=[e for e, _ in exps], observed=kept, explanation=text)
+    if len(ctx.samples) < 3:
+        ctx.sample(dict(fn="sta_lta_window_rejection", family="same sample count, different time steps",
+                        root=root, windows=SAME_N_WINDOWS, components=SAME_N_COMPS,
+                        limits=f"{len(SAME_N_LIMITS)} (min, max) pairs"))
+
+
+def same_n_roots(tier):
+    out = []
+    for s in SAME_N_SETS[tier]:
+        for sta, lta in s["sta_lta"]:
+            for order in itertools.permutations(s["dts"]):
+                for mode in SAME_N_MODES:
+                    out.append(dict(fn="sta_lta_same_n", n=s["n"], burst=s["burst"], dts=list(order),
+                                    sta=sta, lta=lta, mode=mode))
+    return out
+
+
+# ---------------------------------------------------------------------------
 # maximum value
 
 def maxval_case(ctx, root, ws, case):
@@ -529,10 +748,14 @@ def roots(tier, seed):
         for g in _groups(lists, gsize):
             for p in range(parts):
                 out.append(dict(fn=fn, k=k, lists=g, part=[p, parts]))
+    out += same_n_roots(tier)
     return out
 
 
 def run_root(root, ctx, tier):
+    if root["fn"] == "sta_lta_same_n":
+        same_n_root(ctx, root)
+        return
     fn, k = root["fn"], root["k"]
     space = STA_SPACE if fn == "sta_lta" else MAX_SPACE
     cases = list(product.deviations(space, k))
@@ -556,8 +779,11 @@ def finalize(ctx, tier):
     need = ["clear_kept", "clear_rejected", "max_kept", "max_rejected", "mask_comparisons",
             "list_independence_comparisons", "conjunction_comparisons", "rescaling_comparisons",
             "widening_comparisons", "alt_first_component_only_differs",
-            "alt_per_window_normalisation_differs"]
+            "alt_per_window_normalisation_differs", "same_n_clear_kept", "same_n_clear_rejected",
+            "alt_other_time_step_layout_differs"]
     missing = [n for n in need if not c.get(n)]
+    if c.get("same_n_roots_without_discriminating_decision"):
+        missing.append("same_n root in which the chunk layout of the other time step never decides otherwise")
     clear = c.get("clear_kept", 0) + c.get("clear_rejected", 0)
     unclear = c.get("unclear_window_decisions", 0)
     ctx.notes["unclear_fraction"] = round(unclear / max(1, clear + unclear), 4)
@@ -587,11 +813,20 @@ def describe(tier):
              "16 (min,max) limits x 4 amplitude factors (STA/LTA) or 10 (normalised, threshold) x 4 "
              "factors (maximum value); each element is one execution of the real function on fresh "
              "objects.  A case is counted non-trivial/distinct by (function, list, components, dt, sta, "
-             "lta) when its inner grid produced at least two different selections",
+             "lta) when its inner grid produced at least two different selections.  Family sta_lta_same_n: for "
+             "every listed (n samples, set of time steps, sta, lta) every ORDER of the time steps x {successive "
+             "calls, one mixed list (two interleavings)} is one root; inside it 4 component choices x 32 "
+             "(min,max) limits are run for windows {stationary, short burst x6 early / x3 mid / x3 late, step "
+             "up, step down, early step} of the SAME sample count at each time step, every call judged by the "
+             "reference with the window's own time step (clear-inside / clear-outside); a call whose decisions "
+             "are all those of another time step's sample counts is keyed same-sample-count-other-time-step",
         bounds=dict(plan=sizes, alphabet=ALPHA, reduced_alphabets=dict(R4=R4, R3=R3),
                     sta=STA_SPACE["sta"], lta=STA_SPACE["lta"], dt=STA_SPACE["dt"],
                     min_ratio=MINS, max_ratio=MAXS, factors=FACTORS, maximum_value_criteria=CRITS,
-                    hvsr=HVSR_KINDS, components=COMPS),
+                    hvsr=HVSR_KINDS, components=COMPS,
+                    same_sample_count=dict(sets=SAME_N_SETS[tier], modes=SAME_N_MODES, windows=SAME_N_LIST,
+                                           components=SAME_N_COMPS, limits=len(SAME_N_LIMITS),
+                                           roots=len(same_n_roots(tier)))),
         exhaustive=True,
         assumptions=[
             "STA/LTA decisions are compared with the reference only for windows that are clearly inside / "
@@ -603,4 +838,8 @@ def describe(tier):
             "normalised maximum value: 'overall largest' is accepted both as the largest over the examined "
             "components and over all components of all windows; windows on which the two readings differ "
             "are not decided",
-            "time step 0.01 / 0.02 s, 4 s windows, sta/lta from {0.1,0.5,1} x {1,2,window}"])
+            "time step 0.01 / 0.02 s, 4 s windows, sta/lta from {0.1,0.5,1} x {1,2,window}",
+            "same-sample-count family: amplitude factor 1, no HVSR object; roots share their worker process with "
+            "other roots, so the very first call for a given (n, sta, lta) in a process may belong to another "
+            "root - the oracle is absolute (reference per window), so this only changes WHICH time step would "
+            "see a stale value, not whether it is seen"])
